@@ -128,3 +128,14 @@ Example past_infraction_nonvacuous :
   bal_d s 3 = bal_d s0 3 + 2 /\ recs s 3 = recs s0 3 /\ recs s 0 = recs s0 0 /\
   (o_amount (mkOracle 3 103 203 (FX 10000) 2 true 2 0) = FX 10000 /\ recs s 3 = Some (mkOracle 3 103 203 (FX 10000) 2 true 2 0)).
 Proof. vm_compute. repeat split; reflexivity. Qed.
+
+(* the same life cycle on the model of the checked tree (C13-3 repaired): accepted, the oracle receives nothing, what
+   matured is burned, the records are deleted — no hypothesis, [run] / [step] use the generated facts *)
+Theorem penalty_capped_life_cycle_on_tree :
+  let s := run w_init1 w_J in
+  let s' := exec s (Unbond 3) in
+  is_ok (step s (Unbond 3)) = true /\ bal_d s 3 = FX 9500 + 9 /\
+  bal_o s' 3 = bal_o s 3 /\ burned s' = burned s + (FX 9500 + 9) /\ bal_d s' 3 = 0 /\
+  recs s' 3 = None /\ by_bridger s' 103 = None /\ by_ext s' 203 = None /\
+  step s' (Unbond 3) = Err e_notfound.
+Proof. vm_compute. repeat split; reflexivity. Qed.
